@@ -158,21 +158,55 @@ pub fn frames(mut p: &[u8]) -> Result<Vec<(Hdr, &[u8])>, RlpErr> {
     Ok(out)
 }
 
-/// Is `raw` exactly one well-formed item, recursively?
+/// Is `raw` exactly one well-formed item, recursively?  (Iterative: inputs may nest arbitrarily deep.)
 pub fn wellformed_deep(raw: &[u8]) -> bool {
     match header(raw) {
         Ok(h) if h.total() == raw.len() => {
-            if h.list {
-                match frames(&raw[h.off..]) {
-                    Ok(fr) => fr.iter().all(|(_, r)| wellformed_deep(r)),
-                    Err(_) => false,
-                }
-            } else {
-                true
+            if !h.list {
+                return true;
             }
+            // work list of list payloads still to be split into items
+            let mut todo: Vec<&[u8]> = vec![&raw[h.off..]];
+            while let Some(mut p) = todo.pop() {
+                while !p.is_empty() {
+                    let ih = match header(p) {
+                        Ok(ih) => ih,
+                        Err(_) => return false,
+                    };
+                    if ih.list {
+                        todo.push(&p[ih.off..ih.total()]);
+                    }
+                    p = &p[ih.total()..];
+                }
+            }
+            true
         }
         _ => false,
     }
+}
+
+/// `depth` nested lists around an empty list: c0, c1 c0, c2 c1 c0, ...
+pub fn nested_lists(depth: u32) -> Vec<u8> {
+    // build from the inside out, prepending headers: collect headers then reverse
+    let mut headers: Vec<Vec<u8>> = Vec::with_capacity(depth as usize + 1);
+    let mut len = 0usize;
+    for _ in 0..=depth {
+        let mut h = Vec::new();
+        if len < 56 {
+            h.push(0xc0 + len as u8);
+        } else {
+            let lb = uint_bytes(len as u64);
+            h.push(0xf7 + lb.len() as u8);
+            h.extend_from_slice(&lb);
+        }
+        len += h.len();
+        headers.push(h);
+    }
+    let mut out = Vec::with_capacity(len);
+    for h in headers.iter().rev() {
+        out.extend_from_slice(h);
+    }
+    out
 }
 
 /// Is `raw` exactly one item with a strict header (not descending)?
@@ -247,6 +281,9 @@ pub fn selftest() -> Result<(), String> {
     e(as_uint(&[0x83, 1, 0, 0], 2).is_none(), "uint too long")?;
     e(wellformed_deep(&[0xc3, 0x01, 0xc1, 0x80]), "deep ok")?;
     e(!wellformed_deep(&[0xc2, 0x83, 0x01]), "deep bad")?;
+    e(nested_lists(0) == [0xc0] && nested_lists(2) == [0xc2, 0xc1, 0xc0], "nested small")?;
+    let deep = nested_lists(3000);
+    e(wellformed_deep(&deep) && single_item(&deep).is_some(), "nested deep")?;
     Ok(())
 }
 impl PartialEq for Hdr {
